@@ -112,8 +112,20 @@ func (i IntSchema) ValidateCompatibility(typeOrData any) error {
 	}
 
 	if schemaType.TypeID() == TypeIDIntEnum {
-		// Just accept the enums. It's possible to do more
-		return nil
+		// An enum can be consumed if at least one of the values it offers can.
+		values := enumValuesOf(schemaType)
+		if len(values) == 0 {
+			// An enum that offers nothing has nothing that could be refused.
+			return nil
+		}
+		for _, value := range values {
+			if value.CanInt() && i.Validate(value.Int()) == nil {
+				return nil
+			}
+		}
+		return &ConstraintError{
+			Message: "none of the values of the int enum is within the min/max values of the int schema",
+		}
 	}
 	if schemaType.TypeID() != TypeIDInt {
 		return &ConstraintError{
